@@ -19,9 +19,10 @@ import (
 )
 
 type c14WSCase struct {
-	Kind  string `json:"kind"`  // ws | wss
-	After string `json:"after"` // connect | new | authenticating : how far the peer goes along before it fails the handshake
-	How   string `json:"how"`   // close-frame | garbage | wrong-id | non-session
+	Kind  string `json:"kind"`            // ws | wss
+	After string `json:"after"`           // connect | new | authenticating : how far the peer goes along before it fails the handshake
+	How   string `json:"how"`             // close-frame | garbage | wrong-id | non-session
+	Proto string `json:"proto,omitempty"` // the subprotocols the peer offers in its upgrade request: "" = lime | none | other (the upgrade succeeds either way; the connection is the listener's from then on)
 }
 
 type c14WSObs struct {
@@ -70,7 +71,14 @@ func runC14WS(c *c14WSCase) *c14WSObs {
 		case <-time.After(5 * time.Second):
 		}
 	}()
-	d := websocket.Dialer{Subprotocols: []string{"lime"}, HandshakeTimeout: 2 * time.Second, TLSClientConfig: tcfg}
+	protos := []string{"lime"}
+	switch c.Proto {
+	case "none":
+		protos = nil
+	case "other":
+		protos = []string{"chat", "mqtt"}
+	}
+	d := websocket.Dialer{Subprotocols: protos, HandshakeTimeout: 2 * time.Second, TLSClientConfig: tcfg}
 	var wc *websocket.Conn
 	for i := 0; i < 100; i++ {
 		if wc, _, err = d.Dial(url, nil); err == nil {
@@ -184,12 +192,14 @@ func TestC14WS(t *testing.T) {
 				if idx%nsh != sh {
 					continue
 				}
-				c := &c14WSCase{Kind: kind, After: after, How: how}
+				// (a generic WebSocket client does not name the lime subprotocol)
+				c := &c14WSCase{Kind: kind, After: after, How: how, Proto: []string{"", "none", "other", "", "none"}[idx%5]}
 				rec.Journal(c)
 				obs := runC14WS(c)
 				o := &Outcome{NonTrivial: true}
 				o.Class("websocket-listener=" + kind)
 				o.Class("failure=" + how + "/after-" + after)
+				o.Class("subprotocols-offered=" + map[string]string{"": "lime", "none": "none", "other": "others"}[c.Proto])
 				switch {
 				case len(obs.Note) > 0:
 					o.Class("skipped")
